@@ -5,6 +5,7 @@
 package main
 
 import (
+	"bytes"
 	"encoding/hex"
 	"encoding/json"
 	"flag"
@@ -55,12 +56,14 @@ type readRec struct {
 }
 
 type writeRec struct {
-	K   string   `json:"k"`
-	Op  int      `json:"op"`
-	Fn  int      `json:"fn"`
-	Vz  []string `json:"vz"`
-	Vb  []string `json:"vb"`
-	Out string   `json:"out"`
+	// big cases only (k = "wb"): the implementation reads its own bytes back
+	BackOK bool     `json:"back_ok,omitempty"`
+	K      string   `json:"k"`
+	Op     int      `json:"op"`
+	Fn     int      `json:"fn"`
+	Vz     []string `json:"vz"`
+	Vb     []string `json:"vb"`
+	Out    string   `json:"out"`
 }
 
 func runRead(op, fn int, strict bool, d []byte, i int, e int64) readRec {
@@ -240,6 +243,7 @@ func main() {
 	nstruct := flag.Int("structs", 12, "generated values per struct")
 	nmut := flag.Int("mut", 10, "mutations per struct value")
 	nlisk := flag.Int("lisk32", 200, "random lisk32 addresses")
+	big := flag.Bool("big", false, "also payload sizes around 16384 bytes (slow to evaluate in Coq)")
 	nstore := flag.Int("store", 6, "chains saved and re-read through DataAccess")
 	parts := flag.String("parts", "prim,struct,lisk32,ids,store", "which parts to run")
 	in := flag.String("in", "", "replay: JSONL of records to re-run")
@@ -271,10 +275,10 @@ func main() {
 		want[p] = true
 	}
 	if want["prim"] {
-		genPrim(o, rng, *exh, *nrand)
+		genPrim(o, rng, *exh, *nrand, *big)
 	}
 	if want["struct"] {
-		genStructs(o, rng, *nstruct, *nmut)
+		genStructs(o, rng, *nstruct, *nmut, *big)
 	}
 	if want["lisk32"] {
 		genLisk32(o, rng, *nlisk)
@@ -315,7 +319,7 @@ var boundaryI = []int64{0, 1, -1, 2, -2, 63, 64, -64, -65, 1<<31 - 1, -1 << 31, 
 // strings whose NFC status the model decides (coq/Codec/Str.v): code points < U+0300, and the table entries
 var knownStrings = []string{"", "a", "token", "transfer", "\x00", "\x7f", "caf\u00e9", "\u00c5\u00f6", "\u02ff", "e\u0301", "A\u030a", "\u212b", "abo\u0308"}
 
-func genPrim(o *hx.Out, rng *hx.Rng, exh, nrand int) {
+func genPrim(o *hx.Out, rng *hx.Rng, exh, nrand int, big bool) {
 	// (a) exhaustive short byte strings over the boundary alphabet + both keys of field 1
 	alpha := []byte{0x00, 0x01, 0x02, 0x7f, 0x80, 0x81, 0xfe, 0xff, 0x08, 0x0a}
 	var rec func(prefix []byte, n int)
@@ -463,6 +467,47 @@ func genPrim(o *hx.Out, rng *hx.Rng, exh, nrand int) {
 		o.Put(runWrite(opStrings, fn, nil, sss))
 	}
 
+	// (c') payload sizes around the length-prefix boundaries: packed arrays of one- and two-byte elements, bytes, strings
+	sizes := append([]int{}, boundarySizes...)
+	if big {
+		sizes = append(sizes, bigBoundarySizes...)
+	}
+	for _, sz := range sizes {
+		for _, fn := range []int{1, 16} {
+			ones, twos, bools, sones := []string{}, []string{}, []string{}, []string{}
+			for i := 0; i < sz; i++ {
+				ones = append(ones, cx.U(uint64(rng.Intn(128))))
+				sones = append(sones, cx.I(int64(rng.Intn(64))-32)) // zig-zag one byte: -32..31 except -33.. keep within one byte
+				bools = append(bools, cx.B(rng.Bool()))
+				if i < sz/2 {
+					twos = append(twos, cx.U(uint64(128+rng.Intn(16000))))
+				}
+			}
+			putW := func(op int, vz, vb []string) {
+				w := runWrite(op, fn, vz, vb)
+				if sz > 1000 { // too large for the in-Coq evaluation: read back by the implementation, checked by a Python oracle
+					w.K = "wb"
+					w.BackOK = readBack(op, fn, w)
+				}
+				o.Put(w)
+			}
+			if sz < 1000 || fn == 1 {
+				putW(opUInts, ones, nil)
+				putW(opUInt32s, ones, nil)
+				putW(opInts, sones, nil)
+				putW(opInt32s, sones, nil)
+				putW(opBools, bools, nil)
+			}
+			if sz%2 == 0 && sz < 1000 {
+				o.Put(runWrite(opUInts, fn, twos, nil))
+				o.Put(runWrite(opUInt32s, fn, twos, nil))
+			}
+			putW(opBytes, nil, []string{hex.EncodeToString(rng.Bytes(sz))})
+			putW(opString, nil, []string{hex.EncodeToString(bytes.Repeat([]byte{'x'}, sz))})
+			putW(opBytesArray, nil, []string{hex.EncodeToString(rng.Bytes(sz)), "", hex.EncodeToString(rng.Bytes(sz - 1))})
+		}
+	}
+
 	// (d) mutated valid encodings and random bytes
 	for n := 0; n < nrand; n++ {
 		op := allOps[rng.Intn(len(allOps))]
@@ -524,4 +569,28 @@ func binaryUvarint(b []byte) (uint64, int) {
 		sh += 7
 	}
 	return 0, 0
+}
+
+// readBack: the real reader on the bytes the real writer produced: accepted strictly, everything consumed, same values.
+func readBack(op, fn int, w writeRec) bool {
+	d, _ := hex.DecodeString(w.Out)
+	rop := op
+	if op == opInt32s {
+		rop = opInts
+	}
+	r := runRead(rop, fn, true, d, 0, int64(len(d)))
+	if r.St != 0 || r.Ix != len(d) || len(r.Vz) != len(w.Vz) || len(r.Vb) != len(w.Vb) {
+		return false
+	}
+	for i := range r.Vz {
+		if r.Vz[i] != w.Vz[i] {
+			return false
+		}
+	}
+	for i := range r.Vb {
+		if r.Vb[i] != w.Vb[i] {
+			return false
+		}
+	}
+	return true
 }
